@@ -40,7 +40,8 @@ FLOORS = {'*': {f'row:{k}:{r}': (3 if r == 'batch-empty' else 5) for k in ('sync
 
 def gen(ctx):
     rng = ctx.rng
-    full = ctx.thorough
+    full = True
+    deep = ctx.thorough
     k = 0
 
     def emit(family, text, n=None):
@@ -70,9 +71,9 @@ def gen(ctx):
                 yield from emit('batch-' + fam, docs.dumps(els), 3)
     for fam, text in docs.object_product(rng, exhaustive=full, samples=1500):
         yield from emit(fam, text)
-    for fam, text, n in docs.batches(rng, max_exhaustive_len=3 if full else 2, sampled=3000 if full else 400, max_len=6):
+    for fam, text, n in docs.batches(rng, max_exhaustive_len=3 if full else 2, sampled=50000 if deep else 3000, max_len=6):
         yield from emit(fam, text, n)
-    for fam, text in docs.nonjson(rng, per_doc=10 ** 6 if full else 20, random_texts=10000 if full else 800):
+    for fam, text in docs.nonjson(rng, per_doc=10 ** 6 if full else 20, random_texts=200000 if deep else 10000):
         yield from emit(fam, text)
     for fam, text in docs.numbers(False):
         yield from emit(fam, text)
